@@ -38,6 +38,7 @@ POOL = [  # (key used in ops, schema name, version or None = unversioned access 
     ("table", "core.table", (0, 1, 0)),
     ("material", "example.matsci.material", (0, 1, 0)),
     ("person", "core.person", (0, 1, 0)),
+    ("alpha", "verif.alpha", (1, 0, 0)),  # child of verif.base 1.1.0 whose name sorts before the parent's
 ]
 INVALID = [("aux", "verif.aux", (1, 0, 0)), ("unknown", "verif.nope", None), ("unknownv", "verif.base", (3, 0, 0))]
 
@@ -387,13 +388,20 @@ def container_ops(self_move=False, node_forms=True):
         st.just("nopatch"), ctgt, st.just(i), G.model_recipe(pool_class(i)[3], 1, dates="date", objects=False),
         st.sampled_from(["attach", "attach", "attach", "detach", "set", "setattr"])))
     bnd = st.one_of(bnd, bnd, bnd, nopatch, nopatch, st.just(("detach_all",)))
+    # a patch that consists of exactly one small change (between two boundaries)
+    one = st.one_of(st.tuples(st.just("setattr"), st.just("/"), st.sampled_from(["k", "u"]), cvalue),
+                    st.tuples(st.just("delattr"), st.just("/"), cref),
+                    st.tuples(st.just("setattr"), ctgt, st.sampled_from(["k", "u"]), cvalue),
+                    st.tuples(st.just("delattr"), ctgt, cref),
+                    st.tuples(st.just("del"), cref, ctgt), detach, attach_ops())
+    solo = st.tuples(st.just("solo"), st.sampled_from(["commit", "reopen"]), one, st.sampled_from(["commit", "reopen", "reopen"]))
     extra = [st.tuples(st.just("selfmove"), ctgt)] if self_move else []
     cpmv = st.one_of(
         st.tuples(st.just("mcopy"), cref, cref, dpath, st.booleans(), st.booleans(),
                   st.sampled_from(["str", "str", "node_src", "group_dst", "group_dst_name"] if node_forms else ["str"])),
         st.tuples(st.just("move"), cref, cref, dpath))
     gcn = st.tuples(st.just("gcopy_nometa"), cref, fresh)
-    return st.one_of(data, data, meta, meta, meta, cpmv, cpmv, gcn, bnd, *extra)
+    return st.one_of(data, data, meta, meta, meta, cpmv, cpmv, gcn, bnd, solo, *extra)
 
 
 def chistories(min_ops=6, max_ops=25, **kw):
@@ -657,6 +665,12 @@ class CSession:
             if self.run_all(lambda ti, t: t.mc.copy(src_abs, dst_abs, without_meta=True), fm, "copy", dict(src=src_abs, dst=dst_abs, without_meta=True)):
                 self.classes.add("group_copy_without_meta")
                 self.classes.add("copy_without_meta")
+        elif kind == "solo":
+            self.step([op[1]])
+            self.step(list(op[2]))
+            self.step([op[3]])
+            self.classes.add("single_change_patch")
+            return
         elif kind == "detach_all":
             # same session, no reopen: remove every metadata object, one by one (the TOC must end up empty and clean)
             for path in sorted(self.model.meta):
